@@ -41,7 +41,9 @@ def main(tier, seed):
     ck = Check("C16", tier, seed)
     tf = use_impl()
     rng = random.Random(seed)
-    b = ck.build_proofs("Prop_C16", extra_targets=["Run.vo", "IO.vo"])
+    refused = []
+    # the storage's I/O calls are regenerated from storages.py (symbolic execution) and proved equal to the model's scripts (proofs/IOGenP.v)
+    b = ck.build_proofs("Prop_C16", pre=lambda: run_translator("py2coq_io.py", "tinyflux/storages.py", "gen/IOGen.v", refused), extra_targets=["Run.vo", "IO.vo"])
     sizes = [0, 1, 10, 100] if tier == "quick" else [0, 1, 2, 10, 100, 1000, 3000]
     cases, direct_bad, per_point, coq_cases = [], [], {}, []
     ci = 0
@@ -185,6 +187,7 @@ def main(tier, seed):
                       "what_no_longer_checks": "I/O-script correspondence: IO.v script of an insert (theorems C16_*) vs the calls recorded on the implementation",
                       "history": h, "op": o, "auto_index": a, "recorded_labels_without_noeffect_calls": l}, no_input=True)
     ck.cov = {
+        "translator": dict(IO_TRANSLATOR_COV, refused=refused),
         "obligations": b["obligations"], "discharged": b["discharged"],
         "checker_cmd": "make -C /verif/coq Prop_C16.vo IO.vo Run.vo; Print Assumptions per theorem; scripts evaluated with vm_compute",
         "trusted_base": TRUSTED_BASE_COMMON + [
